@@ -70,6 +70,11 @@ def run(ctx):
     c03_.fresh_child_scopes(ctx, "C02.R5", core, cg,
                             doc="a do-block and a function body bind their names in a scope created for them (Environment::extend / extend_with in the same arm), never in the enclosing one: evaluating the same expression twice, or once under a new name, sees the same bindings")
 
+    # ---------------- R8 the same piped bytes are the same inputs
+    from rules import c06 as c06_
+    ctx.rule("C02.R8", "the inputs a run sees are a function of the bytes piped to it, not of how the producer wrote them: every non-interactive read of stdin is read_to_string / read_to_end on stdin itself (a single Read::read returns whatever the first pipe write delivered)", floor=1)
+    c06_.whole_stdin_rule(ctx, "C02.R8", cli, declare=False)
+
     # ---------------- R6 an operator's result depends on the operand values, not on how the operands were written
     ctx.rule("C02.R6", "the operator evaluator looks at its operands' values only: it never matches on the syntactic form of an operand expression (a literal exponent taking a different code path than a variable holding the same number makes `x ^ 3` differ from `n = 3; x ^ n`)", floor=1)
     n_ops = 0
@@ -254,7 +259,9 @@ def run_identity(ctx, cg, local, crates, rid="C02.R4", doc=None):
                "blots_core::heap::LambdaPointer", "blots_core::heap::IterablePointer")
 
     def is_val(t):
-        return (t or "").lstrip("&").replace("mut ", "") in VAL_TYS
+        t = (t or "").lstrip("&").replace("mut ", "")
+        # a Value itself, or a container / definition holding Values (a captured scope, a list of elements): its derived == is heap-index identity element by element
+        return t in VAL_TYS or bool(re.search(r"[<, (]&?(blots_core::values::(Value|LambdaDef|CapturedScope)|blots_core::heap::\w+Pointer)[>, )]", t)) or t in ("blots_core::values::LambdaDef", "blots_core::values::CapturedScope")
 
     def is_null_const(x):
         x = H.strip(x)
